@@ -319,3 +319,22 @@ Lemma json_fraction_examples :
   unmarshal_json_text [Some (txt_0, txt_86400000_5); None; None; None; None; None; None]
     = inl (TRange 0 EEndGtMax).
 Proof. vm_compute. repeat split; discriminate. Qed.
+
+(** The scaling to nanoseconds truncates toward zero, so a fraction below one
+    nanosecond disappears: "51600000.0000001" is 51600000000000 ns, a whole
+    minute, and {"thu":{"start":51600000.0000001,"end":58140000}} is accepted
+    with the range 14h20m-16h09m; one nanosecond more ("51600000.000001") is
+    rejected. *)
+Definition txt_51600000_0000001 : bytes := [53; 49; 54; 48; 48; 48; 48; 48; 46; 48; 48; 48; 48; 48; 48; 49]%N.
+Definition txt_51600000_000001 : bytes := [53; 49; 54; 48; 48; 48; 48; 48; 46; 48; 48; 48; 48; 48; 49]%N.
+Definition txt_58140000 : bytes := [53; 56; 49; 52; 48; 48; 48; 48]%N.
+
+Lemma json_sub_nanosecond_examples :
+  parse_ms_text txt_51600000_0000001 = Some 51600000000000 /\
+  51600000000000 mod ns_min = 0 /\
+  unmarshal_json_text [None; None; None; None; Some (txt_51600000_0000001, txt_58140000); None; None]
+    = inr [zero_range; zero_range; zero_range; zero_range;
+           {| dr_start := 51600000000000; dr_end := 58140000000000 |}; zero_range; zero_range] /\
+  unmarshal_json_text [None; None; None; None; Some (txt_51600000_000001, txt_58140000); None; None]
+    = inl (TRange 4 EStartNotMin).
+Proof. repeat split; vm_compute; reflexivity. Qed.
